@@ -373,7 +373,9 @@ theorem c08_sentinel_witness :
 
 /-- **C08 for a frame sequence through `flv.Muxer` + `flv.Writer`.**
     For every stream (H.264 or H.265, with or without AAC; parameter sets shorter than 2^16
-    bytes, known from frame index `known` on — 0 when the SDP carried them), every
+    bytes, known from frame index `known` on — 0 when the SDP carried them; a configuration is
+    only owed for a validated SPS, `Src.valid`: width known or the SPS decodes — otherwise nothing
+    may be written, which is what `fromStart` says), every
     `creationdate` string and every frame sequence — any length, any NAL types, any media types —
     whose carried frames (video; audio iff AAC) from `known` on are admissible (`FrameOk`: a
     video frame has its NAL header byte, the body fits DataSize, tag time within the signed 32-bit
